@@ -23,12 +23,25 @@ class FV(Vertex):
         return False
 
 
+class MX(Vertex):
+    """a mixin-like Vertex subclass (second base of MV)"""
+
+
+class MV(SV, MX):
+    """a vertex class with TWO bases: MRO = MV, SV, MX, Vertex"""
+
+
 class DD(DirectedEdge):
     """subclass of DirectedEdge"""
 
 
 class UU(UnDirectedEdge):
     """subclass of UnDirectedEdge"""
+
+
+class DU(DirectedEdge, UnDirectedEdge):
+    """a link class deriving from BOTH edge classes (neighbors / find_links test UnDirectedEdge
+    first: undirected there; pyvis tests DirectedEdge only)"""
 
 
 class X(TwoEndedLink):
@@ -47,7 +60,7 @@ class NotAVertex:
     """an object that is not a Vertex (ill-typed constructor argument)"""
 
 
-VCLS = {"V": Vertex, "SV": SV, "FV": FV, "UNI": Universe}
-LCLS = {"D": DirectedEdge, "U": UnDirectedEdge, "DD": DD, "UU": UU, "X": X, "N": N}
+VCLS = {"V": Vertex, "SV": SV, "FV": FV, "UNI": Universe, "MX": MX, "MV": MV}
+LCLS = {"D": DirectedEdge, "U": UnDirectedEdge, "DD": DD, "UU": UU, "X": X, "N": N, "DU": DU}
 VCLS_NAME = {v: k for k, v in VCLS.items()}
 LCLS_NAME = {v: k for k, v in LCLS.items()}
